@@ -160,6 +160,17 @@ def run_impl(case, work, tag="src"):
                 cls(src(), filters=dict(reversed(list(d.items()))), **sel_kw(case))
             except Exception:
                 pass
+        # list-valued id arguments: an earlier object of this process was constructed with the SAME list object, which then held
+        # other codes and was refilled in place (whatever is remembered per argument object must not survive)
+        for k_, v_ in list(d.items()):
+            if k_ in ("particle_species", "remove_particle_species", "particle_status") and isinstance(v_, list) and v_:
+                real = list(v_)
+                v_[:] = [987654321 + i for i in range(len(real))]
+                try:
+                    cls(src(), filters=d, **sel_kw(case))
+                except Exception:
+                    pass
+                v_[:] = real
         try:
             a = cls(src(), filters=d, **sel_kw(case))
             out["ctor"] = {"ok": [[pid_of(case, p, idmap) for p in ev] for ev in a.particle_objects_list()],
@@ -589,6 +600,13 @@ def _probe_cases(rng):
                     yield dict(base, filters=[[k, v]])
                     if base["filters"] and base["filters"][0][0] != k:
                         yield dict(base, filters=[[k, v]] + base["filters"][:1])
+            # an unknown name AFTER entries that leave no particle in any event (it must still be rejected)
+            for first in ([["multiplicity_cut", {"t": "tuple", "v": [{"t": "int", "v": 99}, {"t": "none"}]}]],
+                          [["particle_species", {"t": "int", "v": 424242}]],
+                          [["particle_species", {"t": "int", "v": 424242}], ["multiplicity_cut", {"t": "tuple", "v": [{"t": "int", "v": 1}, {"t": "none"}]}]]):
+                if all(k in KEYS[cls] for k, _ in first):
+                    yield dict(base, filters=first + [["no_such_filter", {"t": "bool", "v": True}]])
+                    yield dict(base, filters=first + [["charged", {"t": "int", "v": 1}]])
             # a dictionary whose switches are all False (nothing may happen), alone and in front of a real entry;
             # the first and the last event as the selection
             sw = [k for k in KEYS[cls] if k in SWITCH]
